@@ -127,7 +127,7 @@ def run(ctx):
     if not uls:
         raise AnalysisBroken('cleanuppid: unlink not found')
     for u in uls:
-        ok, why = age_guard(db, pc, cp, u, oss_c, lambda p: 'time' in p)
+        ok, why = age_guard(db, pc, cp, u, oss_c, lambda p: 'st_atim' not in p)     # the other operand of the age test is the current time, whatever it is called
         r6.check(ok, 'cleanuppid:only-pid-files-older-than-OSSIFIED', u.where, why)
         st = [c for c in cp.calls('stat') if cp.dominates(c, u)]
         r6.check(bool(st) and u.args[0].sx() == st[0].args[0].sx(), 'cleanuppid:removes-the-file-it-examined', u.where, 'unlink(%s) vs stat(%s)' % (u.args[0].src(), st[0].args[0].src() if st else '?'))
